@@ -42,7 +42,12 @@ func init() { register("c05", runC05) }
 
 // declaredSupLinks pre-scans a header / block text with the repository's own primitive
 // readers and returns the suplink count the decoder would pass to make([]*SupLink, size).
-func declaredSupLinks(text []byte) (uint64, bool) {
+func declaredSupLinks(text []byte) (size uint64, ok bool) {
+	defer func() {
+		if r := recover(); r != nil { // a broken primitive must surface in the decode itself, not here
+			size, ok = 0, false
+		}
+	}()
 	raw := make([]byte, hex.DecodedLen(len(text)))
 	if _, err := hex.Decode(raw, text); err != nil {
 		return 0, false
@@ -80,11 +85,11 @@ func declaredSupLinks(text []byte) (uint64, bool) {
 	if err != nil {
 		return 0, false
 	}
-	size, err := blockchain.ReadVarint31(blockchain.NewReader(s))
+	n, err := blockchain.ReadVarint31(blockchain.NewReader(s))
 	if err != nil {
 		return 0, false
 	}
-	return uint64(size), true
+	return uint64(n), true
 }
 
 type c05stats struct {
@@ -149,7 +154,7 @@ func c05Codec(c *Ctx, opKind, kind string, text []byte, line string) {
 		case pmsg == "fail on handle transaction input":
 			failLimited(c, sigF2, short(kind+" "+string(text)))
 		default:
-			failLimited(c, "panic:"+kind+":"+short(pmsg), short(string(text)))
+			failLimited(c, "panic:"+kind+":"+sigNorm(pmsg), short(string(text)))
 		}
 	}
 	bound := uint64(allocK*len(text) + allocK0)
@@ -280,7 +285,7 @@ func c05Msg(c *Ctx, kind string, bz []byte, line string) {
 		}
 		return
 	}
-	failLimited(c, "panic:"+kind+":"+short(pmsg), hx(bz))
+	failLimited(c, "panic:"+kind+":"+sigNorm(pmsg), hx(bz))
 }
 
 func c05Line(c *Ctx, line string) {
